@@ -23,7 +23,9 @@ D3(dummy) == Maps(KeysFull, ScalarsTiny, 2) \cup Maps(KeysSmall, ScalarsSmall, 2
 D4(dummy) == Lists(ScalarsFull, 2) \cup Maps(KeysFull, ScalarsTiny, 3)
       \cup {ListV(<<MapV(<<<<121>>>>, <<x>>)>>) : x \in D2(0)}
 
-ValueSet == CASE Domain = "D1" -> D1(0) [] Domain = "D2" -> D2(0) [] Domain = "D3" -> D3(0) [] Domain = "D4" -> D4(0)
+D5(dummy) == Maps(KeysFull, ScalarsSmall, 2) \cup Lists(ScalarsSmall, 3) \cup {MapV(<<<<>>>>, <<x>>) : x \in Lists(ScalarsFull, 2)}
+
+ValueSet == CASE Domain = "D5" -> D5(0) [] Domain = "D1" -> D1(0) [] Domain = "D2" -> D2(0) [] Domain = "D3" -> D3(0) [] Domain = "D4" -> D4(0)
               [] Domain = "all" -> D1(0) \cup D2(0) \cup D3(0)
 
 \* cheap structural hash for sharding
